@@ -192,4 +192,61 @@ class PatchDiff(Suite):
         return msg.split(":")[0]
 
 
-SUITES = {"dataset-round-trip": DatasetRoundTrip(), "patch-diff": PatchDiff()}
+class HandWritten(Suite):
+    def bound(self, tier):
+        return ("hand-written quad documents: a TriX document with a named graph followed by two anonymous <graph> elements "
+                "and a named one; a TriG document with two blocks of the same graph and a default block in between; an "
+                "N-Quads document alternating graphs: every triple lands in the graph its block names, anonymous graphs "
+                "stay separate from each other and from named ones")
+
+    def enumerate(self, tier):
+        for k in ("trix-anonymous-after-named", "trig-interleaved", "nquads-interleaved"):
+            yield {"k": k}
+
+    def check(self, case):
+        from rdflib import Dataset, URIRef, BNode, Literal
+        ds = Dataset()
+        k = case["k"]
+        if k == "trix-anonymous-after-named":
+            def tr(v):
+                return f"<triple><uri>http://example.org/s</uri><uri>http://example.org/p</uri><plainLiteral>{v}</plainLiteral></triple>"
+            doc = ('<TriX xmlns="http://www.w3.org/2004/03/trix/trix-1/">'
+                   f'<graph><uri>http://example.org/g1</uri>{tr("named1")}</graph>'
+                   f'<graph>{tr("anon1")}</graph><graph>{tr("anon2")}</graph>'
+                   f'<graph><uri>http://example.org/g2</uri>{tr("named2")}</graph><graph>{tr("anon3")}</graph></TriX>')
+            ds.parse(data=doc, format="trix")
+            where = {}
+            for s, p, o, c in quads_of(ds):
+                where[str(o)] = c
+            if where.get("named1") != URIRef("http://example.org/g1") or where.get("named2") != URIRef("http://example.org/g2"):
+                return f"trix-named: triples of the named graphs landed in {where}"
+            anon = [where.get("anon1"), where.get("anon2"), where.get("anon3")]
+            if any(isinstance(a, URIRef) for a in anon):
+                return f"trix-anonymous-merged-into-named: a triple of an anonymous <graph> landed in a named graph: {where}"
+            if len({str(a) for a in anon}) != 3:
+                return f"trix-anonymous-graphs-merged: three anonymous <graph> elements gave {len({str(a) for a in anon})} graphs: {where}"
+            return None
+        if k == "trig-interleaved":
+            ds.parse(data="""@prefix : <http://example.org/> .
+:g1 { :s :p "a" . }
+:s :p "d1" .
+:g2 { :s :p "b" . }
+{ :s :p "d2" . }
+GRAPH :g1 { :s :p "c" . }""", format="trig")
+        else:
+            ds.parse(data='<http://example.org/s> <http://example.org/p> "a" <http://example.org/g1> .\n'
+                          '<http://example.org/s> <http://example.org/p> "d1" .\n'
+                          '<http://example.org/s> <http://example.org/p> "b" <http://example.org/g2> .\n'
+                          '<http://example.org/s> <http://example.org/p> "d2" .\n'
+                          '<http://example.org/s> <http://example.org/p> "c" <http://example.org/g1> .\n', format="nquads")
+        where = {str(o): (None if c is None else str(c)) for s, p, o, c in quads_of(ds)}
+        exp = {"a": "http://example.org/g1", "c": "http://example.org/g1", "b": "http://example.org/g2", "d1": None, "d2": None}
+        if where != exp:
+            return f"graph-assignment[{k}]: triples landed in {where}, expected {exp}"
+        return None
+
+    def classify(self, case, msg):
+        return msg.split(":")[0]
+
+
+SUITES = {"hand-written": HandWritten(), "dataset-round-trip": DatasetRoundTrip(), "patch-diff": PatchDiff()}
